@@ -49,7 +49,8 @@ Record queries := {
 
 Inductive op :=
 | OpAdd (entry source : string) (tbl : list (cell * cell)) (dflt : cell) (override : bool)
-| OpRenum (source target : string) (override : bool) (skey : list (cell * Z)) (kempty : Z).
+| OpRenum (source target : string) (override : bool) (skey : list (cell * Z)) (kempty : Z)
+| OpSet (id : Z) (col : string) (v : cell).
 
 Record wl_case := {
   k_hdr : list string;
@@ -58,9 +59,9 @@ Record wl_case := {
   k_rawk : list (Z * Z);
   k_q0 : queries;
   k_snap0 : option snapshot;          (* None: the constructor raised *)
-  k_ops : list op;
-  k_q1 : queries;
-  k_snap1 : option snapshot;          (* None: an operation raised *)
+  (* the history: after every operation all views are read again (with the
+     queries of that step); None: the operation, or an earlier one, raised *)
+  k_steps : list (op * queries * option snapshot);
   k_conv : list (list (Z * Z))        (* the converters the renumber operations stored *)
 }.
 
@@ -118,27 +119,36 @@ Definition snapshot_of (w : wl) (q : queries) : snapshot :=
                  end) (q_paps q)
   |}.
 
-Definition apply_op (st : option (wl * list (list (Z * Z)))) (o : op) : option (wl * list (list (Z * Z))) :=
-  match st with
-  | None => None
-  | Some (w, convs) =>
-      match o with
-      | OpAdd entry source tbl dflt override =>
-          option_map (fun w' => (w', convs)) (add_entries w entry source (tbl_fun cell_eqb tbl dflt) override)
-      | OpRenum source target override skey kempty =>
-          option_map (fun wc => (fst wc, convs ++ [snd wc]))
-                     (renumber w source target override (tbl_fun cell_eqb skey (-1)) kempty)
+Definition apply_op (w : wl) (o : op) : option (wl * list (list (Z * Z))) :=
+  match o with
+  | OpAdd entry source tbl dflt override =>
+      option_map (fun w' => (w', [])) (add_entries w entry source (tbl_fun cell_eqb tbl dflt) override)
+  | OpRenum source target override skey kempty =>
+      option_map (fun wc => (fst wc, [snd wc]))
+                 (renumber w source target override (tbl_fun cell_eqb skey (-1)) kempty)
+  | OpSet id col v => option_map (fun w' => (w', [])) (set_cell w id col v)
+  end.
+
+(* the model has no cache: every snapshot is computed from the current state *)
+Fixpoint run_steps (st : option wl) (steps : list (op * queries * option snapshot))
+  : list (option snapshot) * list (list (Z * Z)) :=
+  match steps with
+  | [] => ([], [])
+  | (o, q, _) :: t =>
+      match st with
+      | None => let r := run_steps None t in (None :: fst r, snd r)
+      | Some w =>
+          match apply_op w o with
+          | None => let r := run_steps None t in (None :: fst r, snd r)
+          | Some (w', cv) => let r := run_steps (Some w') t in (Some (snapshot_of w' q) :: fst r, cv ++ snd r)
+          end
       end
   end.
 
-Definition run_model (c : wl_case) : option snapshot * option snapshot * list (list (Z * Z)) :=
+Definition run_model (c : wl_case) : option snapshot * list (option snapshot) * list (list (Z * Z)) :=
   match build wordlist_rc (keys_of (k_lowk c) (k_rawk c)) (k_hdr c) (k_data c) with
-  | None => (None, None, [])
-  | Some w =>
-      match fold_left apply_op (k_ops c) (Some (w, [])) with
-      | None => (Some (snapshot_of w (k_q0 c)), None, [])
-      | Some (w', convs) => (Some (snapshot_of w (k_q0 c)), Some (snapshot_of w' (k_q1 c)), convs)
-      end
+  | None => (None, map (fun _ => None) (k_steps c), [])
+  | Some w => let r := run_steps (Some w) (k_steps c) in (Some (snapshot_of w (k_q0 c)), fst r, snd r)
   end.
 
 (* -------------------------------------------------------------- equality *)
@@ -172,13 +182,7 @@ Definition snap_eqb (a b : snapshot) : bool :=
   && list_eqb (option_eqb (list_eqb (pair_eqb Z.eqb zl_eqb))) (s_paps a) (s_paps b).
 
 Definition corr_ok (c : wl_case) : bool :=
-  let '(m0, m1, convs) := run_model c in
+  let '(m0, ms, convs) := run_model c in
   option_eqb snap_eqb m0 (k_snap0 c)
-  && match k_snap0 c with
-     | None => true
-     | Some _ => option_eqb snap_eqb m1 (k_snap1 c)
-                 && match k_snap1 c with
-                    | None => true
-                    | Some _ => list_eqb (list_eqb (pair_eqb Z.eqb Z.eqb)) convs (k_conv c)
-                    end
-     end.
+  && list_eqb (option_eqb snap_eqb) ms (map snd (k_steps c))
+  && list_eqb (list_eqb (pair_eqb Z.eqb Z.eqb)) convs (k_conv c).
